@@ -152,3 +152,77 @@ class VerifTypeTagProbe(FloatProbe):
 
     def _process_logic(self, data, p, q=None):
         return "%s:%r|%s:%r" % (type(p).__name__, p, type(q).__name__, q)
+
+
+# ---- overlapping runs on one Pipeline object: an operation that waits for its peers inside a data node ----
+import threading  # noqa: E402
+
+
+class VerifRendezvousOperation(FloatOperation):
+    """Passes its input through unchanged; when the harness has armed a barrier, waits there first so that
+    several process() calls of one Pipeline object overlap inside this node."""
+
+    barrier = None
+
+    def _process_logic(self, data):
+        b = type(self).barrier
+        if b is not None:
+            try:
+                b.wait(timeout=5)
+            except threading.BrokenBarrierError:
+                pass
+        return FloatDataType(data.data)
+
+
+class VerifAccumulateOperation(FloatOperation):
+    """A stateful user operation: adds the sum of all inputs this INSTANCE has seen before to its input."""
+
+    def __init__(self, *a, **k):
+        super().__init__(*a, **k)
+        self._seen = 0.0
+
+    def _process_logic(self, data):
+        out = data.data + self._seen
+        self._seen += data.data
+        return FloatDataType(out)
+
+
+# ---- elements that fail on ONE particular step of a sweep, with a chosen exception class ----
+
+RAISE_CLASSES = {"ValueError": ValueError, "StopIteration": StopIteration, "KeyError": KeyError, "RuntimeError": RuntimeError,
+                 "IndexError": IndexError, "StopAsyncIteration": StopAsyncIteration, "ZeroDivisionError": ZeroDivisionError,
+                 "AttributeError": AttributeError, "TypeError": TypeError, "LookupError": LookupError}
+
+
+def _maybe_raise(t, bad, exc):
+    if t == bad:
+        raise RAISE_CLASSES[exc]("verif: deliberate failure at step value %r" % (t,))
+
+
+class VerifRaiseAtOperation(FloatOperation):
+    """data * t, except that it raises `exc` when t == bad."""
+
+    def _process_logic(self, data, t, bad, exc):
+        _maybe_raise(t, bad, exc)
+        return FloatDataType(data.data * t)
+
+
+class VerifRaiseAtProbe(FloatProbe):
+    """reports data * t, except that it raises `exc` when t == bad."""
+
+    def _process_logic(self, data, t, bad, exc):
+        _maybe_raise(t, bad, exc)
+        return data.data * t
+
+
+class VerifRaiseAtSource(DataSource):
+    """produces t, except that it raises `exc` when t == bad."""
+
+    @classmethod
+    def _get_data(cls, t, bad, exc):
+        _maybe_raise(t, bad, exc)
+        return FloatDataType(float(t))
+
+    @classmethod
+    def output_data_type(cls):
+        return FloatDataType
